@@ -31,7 +31,7 @@ CHECKS = {
     note="sscanf/fgets executed from the real libc, not modelled; lines shorter than the buffer only; grammar bounded (n<=4, <=3/4 edge lines)."),
  "C12": dict(
     engine="E1+E3", category="other", design_ref="DESIGN.md 4/C12, 3 (K12)",
-    technique="CBMC contracts on the loop-free arithmetic of the label order and closed_plus (proof), loop contracts with quantified invariants on the extracted SPTree::initialize incl. the SPNode constructors (n<=4/6), bounded CBMC on compute_first_in_path (trees <= 5/6 nodes), loop contracts on the extracted lex_dijkstra (distances and predecessor tree, n<=4/5) and LexDistanceCombine (proof) + bounded enforcement of the SPTree contract against Floyd-Warshall and path-consistency checks",
+    technique="CBMC contracts on closed_plus and on the complete label comparator incl. its set-difference tail with order laws as lemmas (proof, full 64-bit domain), loop contracts with quantified invariants on the extracted SPTree::initialize incl. the SPNode constructors (n<=4/6), bounded CBMC on compute_first_in_path (trees <= 5/6 nodes), loop contracts on the extracted lex_dijkstra (distances and predecessor tree, n<=4/5) and LexDistanceCombine (proof) + bounded enforcement of the SPTree contract against Floyd-Warshall and path-consistency checks",
     text="Arithmetic prefix of the label order and closed_plus proved over the full domain; the property statement itself (exact distances, tree, first(), reverse- and sub-path consistency for every ordered pair) is a bounded stand-in on all labelled graphs n<=6, tie-heavy families and seeded random graphs.",
     note="The tie-breaking of lex_dijkstra (which shortest path) is only bounded; exact-domain weights; the set-difference tail of the comparator is checked natively on all equal-size subsets of {0..5}."),
  "C13": dict(
